@@ -143,6 +143,25 @@ Theorem C08_approval_needed :
 Proof. exact handle_approved. Qed.
 Print Assumptions C08_approval_needed.
 
+(** Explicit approvals are used once and name the transaction.  For the memorizing approver over
+    a delegate that declines, in every history of [approve] calls and requests: a request is
+    answered yes only if the operation immediately before it is an [approve] whose list contains
+    this very transaction (identity = the whole transaction: inputs, outputs, locktime, version).
+    Any request in between uses the approvals up; a transaction that merely shares outputs with
+    an approved one is a different identity.  With [C08_approval_needed]: a transaction with
+    unclassified outputs is signed only on such an approval. *)
+Theorem C08_memo_exact_once :
+  forall (pre : list mop) (tx : N),
+    snd (mstep (fun _ => false) (fst (mrun (fun _ => false) [] pre)) (MAsk tx)) = Some true ->
+    exists pre' txs, pre = pre' ++ [MSet txs] /\ In tx txs.
+Proof. exact memo_exact_once. Qed.
+Print Assumptions C08_memo_exact_once.
+
+Example C08_memo_nonvacuous :
+  snd (mrun (fun _ => false) [] [MSet [7]; MAsk 7; MAsk 7; MSet [7]; MAsk 8; MAsk 7; MSet [7; 8]; MAsk 8])
+    = [true; false; false; false; true].
+Proof. vm_compute. reflexivity. Qed.
+
 (** Overflow candidates: input values or counted output values summing above u64 are refused
     whatever the filter. *)
 Theorem C08_overflow_refused :
